@@ -168,10 +168,10 @@ CHECKS = {
           "full rate from any synchronised handle stays truthful over ANY number of intact packets, whatever the page layout (Sync_lemmas.v); (3) ov_pcm_seek at full rate "
           "from ANY opened handle: when the page seek succeeds without the continued-packet fallback and the packets from the landing point form an intact run of "
           "the link reaching the target, it returns 0, reports EXACTLY the target and leaves a truthful state - quiet decoder whose next packet ends at the reported "
-          "position, or pending samples that are the samples at the reported position; (4) ov_pcm_seek_page under the same hypotheses reports the position where the first following packet ends and the next fetch leaves the handle in sync there ; (5) ov_raw_seek into the link being decoded, onto a page that is not its last and carries a granule position, followed by an intact run, reports the position where the first packet of that run ends and lands the handle the same way (Seek_lemmas.v: invariants of the packet-discarding and the sample-discarding "
+          "position, or pending samples that are the samples at the reported position; (4) ov_pcm_seek_page under the same hypotheses reports the position where the first following packet ends and the next fetch leaves the handle in sync there ; (5) ov_raw_seek - into the link being decoded or into another link, also from a handle without decoder - onto a page that is not its last and carries a granule position, followed by an intact run, reports the position where the first packet of that run ends and lands the handle the same way (Seek_lemmas.v: invariants of the packet-discarding and the sample-discarding "
           "loop by induction, the landing facts of ov_pcm_seek_page derived, hypotheses packaged as the executable test seek_hyps). The per-run check evaluates "
           "seek_hyps in the extracted model for every sample seek it performs (it held for 30-55 % of them) and demands success and position = target from the "
-          "real code there. NOT theorems: byte seeks that change link or land on a link's last page, the continued-packet fallback, seeks finishing inside the last "
+          "real code there. NOT theorems: byte seeks that land on a link's last page, the continued-packet fallback, seeks finishing inside the last "
           "page (end-of-stream trim); half rate is proved separately (C20, SeekH_lemmas.v); the rest is checked per run by replaying random seek/read histories on chained files against the model (return "
           "code, positions, state, link) and by comparing every read bit for bit with an independent packet-level decode at the reported position.",
   "note": VF_NOTE,
